@@ -94,7 +94,16 @@ def run(ctx):
     ctx.extra["exhaustive"] = False   # per payload pair every crash image of <= 8 sectors is materialised; the pair list itself is a selection
 
 
+def ssig(S):
+    """sector subset: literal when small, else count + range + first gap"""
+    if len(S) <= 8:
+        return "".join(str(x) for x in S)
+    gap = next((a + 1 for a, b in zip(S, S[1:]) if b != a + 1), None)
+    return "%dof%d..%d%s" % (len(S), S[0], S[-1], "" if gap is None else "gap%d" % gap)
+
+
 def short(ev):
+    ev = re.sub(r'"S":\[((?:\d+,){8})[^\]]*\]', r'"S":[\1..]', ev)
     return re.sub(r'"data":\[[^\]]*\]', '"data":[..]', ev)[:200]
 
 
@@ -117,7 +126,7 @@ def sig(x):
             if o.get("e") == "Save":
                 ex["n"] = o.get("n")
         return "CrashLoad:base=%s:n=%s:w=%s:pb=%s:S=%s:ok=%s:ids=%s" % (ex.get("base"), ex.get("n"), ev.get("w"), ev.get("pb"),
-                                                                       "".join(str(s) for s in ev.get("S", [])), ev.get("ok"), ev.get("ids"))
+                                                                       ssig(ev.get("S", [])), ev.get("ok"), ev.get("ids"))
     if e == "Load":
         ws = [json.loads(l) for l in x["exec"] if '"e":"Write"' in l]
         hdr_short = any(w["n"] == 16 and w["off"] == 0 and w["ret"] != 16 for w in ws) or any(w["off"] < 16 and w["off"] > 0 for w in ws)
